@@ -23,3 +23,25 @@ Theorem footer_location_irrelevant : forall file m1 m2,
   firstn 4 file = magic -> footer_location m1 file = footer_location m2 file.
 Proof. exact footer_location_irrelevant_proved. Qed.
 Print Assumptions footer_location_irrelevant.
+
+(** Batch-reader output (row alignment, values, null bitmaps, batch boundaries, final status): the same in the three
+    modes for every valid file, projection and batch size - zero-copy shortcuts change how, never what. *)
+Theorem io_mode_irrelevant_batch : forall (A : Type) (garbage : A) (f : @mfile A) proj bs m1 m2,
+  proj <> [] -> Forall (rg_ok proj) f -> 0 < bs < 2^31 ->
+  batches garbage true true m1 f proj bs = batches garbage true true m2 f proj bs.
+Proof. exact @io_mode_irrelevant_batch_proved. Qed.
+Print Assumptions io_mode_irrelevant_batch.
+
+(** On the pinned tree the modes differed (DESIGN F7; same witness as C02's batch_aligned_pinned_refuted). *)
+Theorem io_mode_irrelevant_pinned_refuted :
+  exists (f : @mfile N) proj bs,
+    Forall (rg_ok proj) f /\ proj <> [] /\ 0 < bs < 2^31 /\
+    (forall bl c, batches 0%N true false Mmap f proj bs = Ok (bl, c) -> ~ Forall batch_aligned_prop bl) /\
+    batches 0%N true false Mmap f proj bs <> batches 0%N true false Fread f proj bs.
+Proof. exact batch_aligned_pinned_refuted_proved. Qed.
+Print Assumptions io_mode_irrelevant_pinned_refuted.
+
+(* The lifetime clause of C03 ("data handed out in zero-copy mode stays valid until the owning reader is closed")
+   is a statement about pointers into the mapping; the models have values, not addresses.  It is observed, not
+   proved: harness/h_reader.c keeps every batch, re-reads every byte of every column after all later calls and just
+   before the reader is closed, under ASan (checks/C03.py, token L1).  Hence C03 is claimed as partial. *)
